@@ -535,7 +535,10 @@ def alloc_request(ex, count, elem_size, what):
         ex.path.events.append(('alloc', what, 'symbolic'))
         # fork: the over-budget request is a path of its own
         if ex.branch(big):
-            raise PathEnd('alloc', '%s requests more than %d bytes (count symbolic)' % (what, ex.alloc_budget))
+            # is the count bounded by the implementation's wire-size guard (<= 0x7FFFFF elements) or not at all?
+            huge = z3.UGT(count, BV(0x7FFFFF, count.size())) if count.size() > 23 else z3.BoolVal(False)
+            unguarded = (not z3.is_false(huge)) and ex.check(ex.path.pc + [huge]) == z3.sat
+            raise PathEnd('alloc', '%s requests more than %d bytes (count symbolic, %s)' % (what, ex.alloc_budget, 'no effective guard' if unguarded else 'count within the wire-size guard'))
 
 
 def elem_size_of_vec(ex, fn, which='ret'):
